@@ -115,6 +115,15 @@ Definition C01_domain (e : expr) : bool :=
   forallb word_ok (subwords_of (tr e))
   && explore leaf_eqb same_item point_ok explore_fuel [start e] [].
 
+(** Diagnostic only (not part of the domain's definition, which contains it): inside every
+    within-word expression nothing follows an undefined nonterminal.  check.rs rejects the other
+    grammars as UnboundedMatchable; the C01 check counts accepted grammars for which this is false. *)
+Definition wtail_point (mv : list (wleaf * rx wleaf)) : bool :=
+  forallb (fun ak => match fst ak with WAny => eps_only (snd ak) | _ => true end) mv.
+
+Definition C01_tail_only (e : expr) : bool :=
+  forallb (fun x => explore wleaf_eqb wsame_item wtail_point explore_fuel [[x]] []) (subwords_of (tr e)).
+
 (** *** The part that depends on the commands' output *)
 Definition wtokens (en : env) (x : rx wleaf) : list string :=
   flat_map (fun a => match a with
